@@ -416,13 +416,22 @@ def mergeDeps (w vw' : SWorld α B) (stations : List (StationS α)) (cvs : List 
   let w := vw'.gcs.foldl (fun (w : SWorld α B) g => w.setGc g) w
   vw'.batteries.foldl (fun (w : SWorld α B) b => w.setBattery b) w
 
+/-- REPAIRED (fixes/DIST2.diff): right after the sub-strategy's step
+`for cs_id, cs in new_world_state.charging_stations.items(): cs.current_power = gc.current_loads.get(cs_id, 0)` —
+the stations of the virtual world take the power booked for them at the connector (peak_shaving and
+peak_load_window never write `cs.current_power`; for greedy / balanced this changes nothing) -/
+def syncStations (vw : SWorld α B) : SWorld α B :=
+  match vw.gcs with
+  | [g] => { vw with stations := vw.stations.map (fun s => { s with currentPower := (sdGet g.loads s.id).getD 0 }) }
+  | _ => vw
+
 /-- depot connector, sub-strategy greedy / balanced: run it on `new_world_state` -/
 def stepDepsRule (dops : DOps α B) (de : DEnv α) (w : SWorld α B) (ini : DInit α) (cmdsAcc : List (String × α))
     (gc : GcS α) (stations : List (StationS α)) (cvs : List (VehicleS α B)) (batIds : List String) :
     Py (SWorld α B × DInit α × List (String × α)) := do
   let (vw', cmds) ← ruleStep de.deps.rule dops.bat (de.deps.env de.env.now)
     ⟨[gc], stations, cvs, depotBatteries w batIds⟩
-  .ok (mergeDeps w vw' stations cvs, ini, sdUpdate cmdsAcc cmds)
+  .ok (mergeDeps w (syncStations vw') stations cvs, ini, sdUpdate cmdsAcc cmds)
 
 /-- opportunity station, sub-strategy greedy / balanced: battery support / virtual vehicles, sub-strategy, restore
 the limit, batteries -/
@@ -436,11 +445,11 @@ def stepOppsRule (dops : DOps α B) (de : DEnv α) (lk : Look α) (w : SWorld α
     ⟨[prep.gc], stations ++ prep.vcs, cvs ++ prep.vveh, []⟩
   match vw'.gcs with
   | [gc1] => do
-    let w := writeBack w vw' (stations.map (·.id)) (cvs.map (·.id))
+    let w := writeBack w (syncStations vw') (stations.map (·.id)) (cvs.map (·.id))
     -- the virtual stations keep their `current_power`
     let vids := prep.vcs.map (·.id)
     let ini := { ini with virtualCs := ini.virtualCs.map (fun s =>
-      if vids.contains s.id then (vw'.stations.find? (·.id == s.id)).getD s else s) }
+      if vids.contains s.id then ((syncStations vw').stations.find? (·.id == s.id)).getD s else s) }
     let vveh' := vw'.vehicles.filter (fun v => prep.vveh.any (fun x => x.id == v.id))
     let post ← batIds.foldlM (oppsAfter dops saved prep.avail vveh') ⟨gc1, cmds, w.batteries⟩
     let w := { (w.setGc post.gc) with batteries := post.bats }
@@ -475,7 +484,7 @@ def stepDepsPS (dops : DOps α B) (de : DEnv α) (cfg : PSCfg) (w : SWorld α B)
     (batIds : List String) : Py (SWorld α B × DInit α × List (String × α)) := do
   let (vw', cmds, evs') ← psStep dops de.deps cfg de.env.now ini.depsEvents (subFuture de.future gc.id cvs)
     ⟨[gc], stations, cvs, depotBatteries w batIds⟩
-  .ok (mergeDeps w vw' stations cvs, { ini with depsEvents := evs' }, sdUpdate cmdsAcc cmds)
+  .ok (mergeDeps w (syncStations vw') stations cvs, { ini with depsEvents := evs' }, sdUpdate cmdsAcc cmds)
 
 /-- opportunity station, sub-strategy peak_shaving (same frame as `stepOppsRule`) -/
 def stepOppsPS (dops : DOps α B) (de : DEnv α) (cfg : PSCfg) (lk : Look α) (w : SWorld α B) (ini : DInit α)
@@ -488,10 +497,10 @@ def stepOppsPS (dops : DOps α B) (de : DEnv α) (cfg : PSCfg) (lk : Look α) (w
     ⟨[prep.gc], stations ++ prep.vcs, cvs ++ prep.vveh, []⟩
   match vw'.gcs with
   | [gc1] => do
-    let w := writeBack w vw' (stations.map (·.id)) (cvs.map (·.id))
+    let w := writeBack w (syncStations vw') (stations.map (·.id)) (cvs.map (·.id))
     let vids := prep.vcs.map (·.id)
     let ini := { ini with virtualCs := ini.virtualCs.map (fun s =>
-      if vids.contains s.id then (vw'.stations.find? (·.id == s.id)).getD s else s), oppsEvents := evs' }
+      if vids.contains s.id then ((syncStations vw').stations.find? (·.id == s.id)).getD s else s), oppsEvents := evs' }
     let vveh' := vw'.vehicles.filter (fun v => prep.vveh.any (fun x => x.id == v.id))
     let post ← batIds.foldlM (oppsAfter dops saved prep.avail vveh') ⟨gc1, cmds, w.batteries⟩
     let w := { (w.setGc post.gc) with batteries := post.bats }
